@@ -3,6 +3,7 @@ import NixModel.Lemmas.C20Shape
 import NixModel.Lemmas.C20HistDel
 import NixModel.Lemmas.C20DelObj
 import NixModel.Store.CopyFrames
+import NixModel.Lemmas.StoreWF
 
 /-!
 # C20 — copies are complete, independent, and keep their internal links
@@ -940,6 +941,24 @@ theorem repaired_delete_new_side (hdst : FileOk dst) (ho : owner ∈ keys dst)
 /-- non-vacuity: the same copy with regenerated ids succeeds and survives the deletion -/
 example : (copyGeneric oneArrayFile oneArrayFile 2 "data_arrays" 4 "a2" false false).toOption.isSome = true := by
   decide
+
+/-! ### the hypotheses hold for the files the API builds
+
+`FileOk dst` (all theorems), `IdsBelow dst` (`independent_history` with deletions) and "the source
+carries an id" (`*_source*` theorems) are facts of every graph reachable from the empty file through
+the API (`ReachableFresh`: any history of `Store.Op`s under the `uuid4` freshness proviso; the
+well-formedness invariant `WF` of `Lemmas/StoreWF*.lean`). -/
+
+theorem reachable_file_ok {g : Graph} (h : ReachableFresh g) : FileOk g ∧ IdsBelow g ∧ 0 ∈ keys g :=
+  ⟨⟨h.wf.keys_lt, h.wf.target_exists⟩, h.wf.ids_wf, h.wf.root⟩
+
+/-- every entry of every container of such a file (every block, array, frame, tag, multi-tag, section,
+property …) carries an id -/
+theorem reachable_entity_has_id {g : Graph} (h : ReachableFresh g) {k c : Nat} {cn : String} {info : CInfo}
+    (hi : containerInfo (okind g k) cn = some info) (hc : g.child? k cn = some c) {l : String × Nat}
+    (hl : l ∈ g.links c) : g.entityId l.2 ≠ none := by
+  obtain ⟨_, ⟨i, hid⟩, _⟩ := h.wf.typing k cn info c hi hc l hl
+  rw [hid]; simp
 
 /-! ### non-vacuity of `independent_history` -/
 
